@@ -241,6 +241,22 @@ end
 
 theorem MonoR.error_left {α : Type} (e : Err) (b : R α) : MonoR (.error e) b := fun _ h => by cases h
 
+/-- OP_CHECKMULTISIG is monotone between two contexts that agree on argument extraction and signature
+deletion, have monotone signature loops and a monotone final step -/
+theorem opCheckMultisig_mono_of (c₁ c₂ : Ctx) (v : Bool) (st : St)
+    (hargs : multisigArgs c₁ st = multisigArgs c₂ st)
+    (hstrip : ∀ sigs code, multisigStrip c₁ sigs code = multisigStrip c₂ sigs code)
+    (hloop : ∀ code fuel sigs keys, MonoR (multisigLoop c₁ code fuel sigs keys) (multisigLoop c₂ code fuel sigs keys))
+    (hfin : ∀ a s, MonoR (multisigFinish c₁ st a s v) (multisigFinish c₂ st a s v)) :
+    MonoR (opCheckMultisig c₁ st v) (opCheckMultisig c₂ st v) := by
+  unfold opCheckMultisig
+  rw [hargs]
+  apply MonoR.bind (MonoR.refl _); intro a
+  rw [hstrip]
+  apply MonoR.bind (MonoR.refl _); intro code
+  apply MonoR.bind (hloop _ _ _ _); intro s
+  exact hfin a s
+
 /-! ### CHECKLOCKTIMEVERIFY -/
 
 def setCltv (c : Ctx) (b : Bool) : Ctx := { c with flags := { c.flags with cltv := b } }
@@ -340,22 +356,28 @@ def setNulldummy (c : Ctx) (b : Bool) : Ctx := { c with flags := { c.flags with 
 theorem setNulldummy_agree (c : Ctx) (b : Bool) : SigAgree c (setNulldummy c b) :=
   ⟨fun _ => rfl, fun _ _ => rfl, rfl, rfl, rfl⟩
 
-set_option maxHeartbeats 1000000 in
-theorem opCheckMultisig_nulldummy_mono (c : Ctx) (v : Bool) (st : St) :
-    MonoR (opCheckMultisig (setNulldummy c true) st v) (opCheckMultisig (setNulldummy c false) st v) := by
-  unfold opCheckMultisig
-  simp only [multisigLoop_congr (setNulldummy_agree c _), multisigStrip_congr (setNulldummy_agree c _)]
+theorem multisigFinish_nulldummy_mono (c : Ctx) (st : St) (a : MsArgs) (s v : Bool) :
+    MonoR (multisigFinish (setNulldummy c true) st a s v) (multisigFinish (setNulldummy c false) st a s v) := by
+  unfold multisigFinish
   have e1 : (setNulldummy c true).flags.nulldummy = true := rfl
   have e2 : (setNulldummy c false).flags.nulldummy = false := rfl
-  have e3 : ∀ b, (setNulldummy c b).sv = c.sv := fun _ => rfl
-  have e4 : ∀ b, (setNulldummy c b).flags.minimaldata = c.flags.minimaldata := fun _ => rfl
   have e5 : ∀ b, (setNulldummy c b).flags.nullfail = c.flags.nullfail := fun _ => rfl
-  simp only [e1, e2, e3, e4, e5, Bool.true_and, Bool.false_and, Bool.false_eq_true, if_false]
-  repeat' (first
-    | exact MonoR.refl _
-    | exact MonoR.error_left _ _
-    | (apply MonoR.bind (MonoR.refl _); intro _)
-    | split)
+  simp only [e1, e2, e5, Bool.true_and, Bool.false_and, Bool.false_eq_true, if_false]
+  split
+  · exact MonoR.refl _
+  · split
+    · exact MonoR.error_left _ _
+    · exact MonoR.refl _
+
+theorem opCheckMultisig_nulldummy_mono (c : Ctx) (v : Bool) (st : St) :
+    MonoR (opCheckMultisig (setNulldummy c true) st v) (opCheckMultisig (setNulldummy c false) st v) :=
+  opCheckMultisig_mono_of _ _ v st rfl
+    (fun sigs code => by
+      rw [multisigStrip_congr (setNulldummy_agree c true), multisigStrip_congr (setNulldummy_agree c false)])
+    (fun code fuel sigs keys => by
+      rw [multisigLoop_congr (setNulldummy_agree c true), multisigLoop_congr (setNulldummy_agree c false)]
+      exact MonoR.refl _)
+    (fun a s => multisigFinish_nulldummy_mono c st a s v)
 
 set_option maxHeartbeats 2000000 in
 theorem execOp_nulldummy_mono (c : Ctx) (op : Nat) (rest : Bytes) (st : St) :
@@ -369,6 +391,151 @@ theorem nulldummy_step : StepTightening setNulldummy :=
 theorem nulldummy_tightening : EvalTightening (fun fl b => { fl with nulldummy := b }) where
   eval := fun fl chk sv xd s st w =>
     evalScript_mono nulldummy_step { flags := fl, sv := sv, chk := chk, xd := xd } s st w
+  sigpushonly := fun _ _ => rfl
+  witness := fun _ _ => rfl
+  p2sh := fun _ _ => rfl
+  cleanstack := fun _ _ => rfl
+  taproot := fun _ _ => rfl
+  dOpSuccess := fun _ _ => rfl
+  dTapVer := fun _ _ => rfl
+  dWitProg := fun _ _ => rfl
+
+/-! ### DERSIG -/
+
+def setDersig (c : Ctx) (b : Bool) : Ctx := { c with flags := { c.flags with dersig := b } }
+
+theorem checkSignatureEncoding_dersig_mono (f : Flags) (s : Bytes) :
+    MonoR (checkSignatureEncoding { f with dersig := true } s) (checkSignatureEncoding { f with dersig := false } s) := by
+  unfold checkSignatureEncoding
+  by_cases hv : isValidSignatureEncoding s = true
+  · simp only [hv, Bool.not_true, Bool.and_false, Bool.false_eq_true, if_false]
+    exact MonoR.refl _
+  · have hv' : isValidSignatureEncoding s = false := by simpa using hv
+    simp only [hv', Bool.not_false, Bool.and_true, Bool.true_or, if_true]
+    split
+    · exact MonoR.refl _
+    · exact MonoR.error_left _ _
+
+theorem multisigLoop_dersig_mono (c : Ctx) (code : Bytes) : ∀ fuel sigs keys,
+    MonoR (multisigLoop (setDersig c true) code fuel sigs keys) (multisigLoop (setDersig c false) code fuel sigs keys) := by
+  intro fuel
+  induction fuel with
+  | zero => intro sigs keys; cases sigs <;> (simp only [multisigLoop]; exact MonoR.refl _)
+  | succ n ih =>
+    intro sigs keys
+    cases sigs with
+    | nil => simp only [multisigLoop]; exact MonoR.refl _
+    | cons s ss =>
+      cases keys with
+      | nil => simp only [multisigLoop]; exact MonoR.refl _
+      | cons k ks =>
+        simp only [multisigLoop]
+        apply MonoR.bind (checkSignatureEncoding_dersig_mono c.flags s)
+        intro _
+        apply MonoR.bind (MonoR.of_eq rfl)
+        intro _
+        apply MonoR.bind (MonoR.of_eq rfl)
+        intro ok
+        cases ok
+        · simp only [Bool.false_eq_true, if_false]
+          split
+          · exact MonoR.refl _
+          · exact ih _ _
+        · simp only [if_true]
+          split
+          · exact MonoR.refl _
+          · exact ih _ _
+
+theorem multisigStrip_dersig (c : Ctx) (b : Bool) : ∀ sigs code,
+    multisigStrip (setDersig c b) sigs code = multisigStrip c sigs code := by
+  intro sigs
+  induction sigs with
+  | nil => intro code; simp [multisigStrip]
+  | cons s ss ih =>
+    intro code
+    have e1 : (setDersig c b).sv = c.sv := rfl
+    have e2 : (setDersig c b).flags.constScriptcode = c.flags.constScriptcode := rfl
+    simp only [multisigStrip, e1, e2, ih]
+
+theorem opCheckMultisig_dersig_mono (c : Ctx) (v : Bool) (st : St) :
+    MonoR (opCheckMultisig (setDersig c true) st v) (opCheckMultisig (setDersig c false) st v) :=
+  opCheckMultisig_mono_of _ _ v st rfl
+    (fun sigs code => by rw [multisigStrip_dersig, multisigStrip_dersig])
+    (multisigLoop_dersig_mono c)
+    (fun a s => MonoR.of_eq rfl)
+
+theorem evalChecksigPre_dersig_mono (c : Ctx) (st : St) (sig pk : Bytes) :
+    MonoR (evalChecksigPre (setDersig c true) st sig pk) (evalChecksigPre (setDersig c false) st sig pk) := by
+  unfold evalChecksigPre
+  apply MonoR.bind (MonoR.of_eq rfl)
+  intro code
+  apply MonoR.bind (checkSignatureEncoding_dersig_mono c.flags sig)
+  intro _
+  exact MonoR.of_eq rfl
+
+theorem evalChecksig_dersig_mono (c : Ctx) (st : St) (sig pk : Bytes) :
+    MonoR (evalChecksig (setDersig c true) st sig pk) (evalChecksig (setDersig c false) st sig pk) := by
+  unfold evalChecksig
+  have e : ∀ b, (setDersig c b).sv = c.sv := fun _ => rfl
+  simp only [e]
+  split
+  · exact MonoR.bind (evalChecksigPre_dersig_mono c st sig pk) (fun _ => MonoR.refl _)
+  · exact MonoR.bind (evalChecksigPre_dersig_mono c st sig pk) (fun _ => MonoR.refl _)
+  · exact MonoR.of_eq rfl
+  · exact MonoR.refl _
+
+
+theorem opChecksig_dersig_mono (c : Ctx) (st : St) (v : Bool) :
+    MonoR (opChecksig (setDersig c true) st v) (opChecksig (setDersig c false) st v) := by
+  unfold opChecksig
+  split
+  · rename_i pk sig s _
+    intro st' h
+    cases h1 : evalChecksig (setDersig c true) st sig pk with
+    | error e => rw [h1] at h; cases h
+    | ok r =>
+      rw [h1] at h
+      rw [evalChecksig_dersig_mono c st sig pk r h1]
+      exact h
+  · exact MonoR.refl _
+
+theorem opChecksigAdd_dersig_mono (c : Ctx) (st : St) :
+    MonoR (opChecksigAdd (setDersig c true) st) (opChecksigAdd (setDersig c false) st) := by
+  unfold opChecksigAdd
+  have e : ∀ b, (setDersig c b).sv = c.sv := fun _ => rfl
+  have e2 : ∀ b, (setDersig c b).flags.minimaldata = c.flags.minimaldata := fun _ => rfl
+  simp only [e, e2]
+  split
+  · exact MonoR.refl _
+  · split
+    · rename_i pk nb sig s _
+      split
+      · exact MonoR.refl _
+      · intro st' h
+        cases h1 : evalChecksig (setDersig c true) st sig pk with
+        | error e => rw [h1] at h; cases h
+        | ok r =>
+          rw [h1] at h
+          rw [evalChecksig_dersig_mono c st sig pk r h1]
+          exact h
+    · exact MonoR.refl _
+
+set_option maxHeartbeats 2000000 in
+theorem execOp_dersig_mono (c : Ctx) (op : Nat) (rest : Bytes) (st : St) :
+    MonoR (execOp (setDersig c true) op rest st) (execOp (setDersig c false) op rest st) := by
+  unfold execOp
+  split <;> first
+    | exact MonoR.of_eq rfl
+    | exact opCheckMultisig_dersig_mono c _ st
+    | exact opChecksig_dersig_mono c st _
+    | exact opChecksigAdd_dersig_mono c st
+
+theorem dersig_step : StepTightening setDersig :=
+  ⟨execOp_dersig_mono, fun _ _ _ _ _ => rfl, fun _ _ => rfl, fun _ _ => rfl⟩
+
+theorem dersig_tightening : EvalTightening (fun fl b => { fl with dersig := b }) where
+  eval := fun fl chk sv xd s st w =>
+    evalScript_mono dersig_step { flags := fl, sv := sv, chk := chk, xd := xd } s st w
   sigpushonly := fun _ _ => rfl
   witness := fun _ _ => rfl
   p2sh := fun _ _ => rfl
